@@ -6,7 +6,7 @@ import operator
 import warnings
 from collections import OrderedDict
 
-from jaqalpaq.error import nesting_guard
+from jaqalpaq.error import JaqalError, nesting_guard
 from .algorithm import fill_in_let, expand_macros, expand_subcircuits
 from .algorithm.walkers import *
 
@@ -319,6 +319,12 @@ class OutputParser(TraceVisitor):
         else:
             # A plain integer, whatever integer-like type the data came in
             nxt = operator.index(nxt)
+        outcomes = 2 ** len(subcircuit.measured_qubits)
+        if not 0 <= nxt < outcomes:
+            # (a negative index would silently be counted in another bin)
+            raise JaqalError(
+                f"Measurement outcome {nxt} is not in the range 0..{outcomes - 1}"
+            )
         mr = Readout(nxt, self.readout_index)
         subcircuit.accept_readout(mr)
         self.res.append(mr)
